@@ -182,6 +182,7 @@ FaultReply(ch, f) ==
   CASE f = "garbage"   -> Sig("bad", GarbageMsg, NoBf, TRUE)
     [] f = "altbal"    -> Sig(key, [m EXCEPT ![4] = AltNum(m[4])], e[3], TRUE)
     [] f = "altcid"    -> Sig(key, [m EXCEPT ![1] = 0], e[3], TRUE)
+    [] f = "altcid_hi" -> Sig(key, [m EXCEPT ![1] = 0 - 1], e[3], TRUE)          \* the id with a top bit flipped: another id
     [] f = "altlock"   -> Sig(key, [m EXCEPT ![3] = <<0, 0>>], e[3], TRUE)
     [] f = "wrongtype" -> Sig(key, MsgOf(OtherType(e[1]), ch, e[2]), e[3], TRUE)
     [] f = "oldstate"  -> IF e[2] > 0 THEN Sig(key, MsgOf(e[1], ch, e[2] - 1), e[3], TRUE)     \* right type, PREVIOUS state
